@@ -114,6 +114,8 @@ def reuse_programs():
     yield "iso-reused-operand", ('Signal x = ("signal-A", 6);\nSignal y = ("signal-B", 4);\nSignal r = x - x * y;\nSignal q = (x + y) * (x - y) + x;\n')
     yield "iso-untyped-everywhere", ('Signal a = 100;\nSignal b = 110;\nSignal c = 120;\nSignal p1 = a + b * c;\nSignal p2 = a > 0 && b > 0 || c > 0;\n'
                                      'Signal n = ((a + b) * (c - 1)) / 2 | "iron-plate";\nSignal m = (a + (b | "iron-plate") + (c | "iron-plate") + (a * 2)) | "iron-ore";\n')
+    # an integer sub-expression is an integer: the result is on the signal operand's type
+    yield "int-subexpression-left", ('Signal x = ("signal-A", 6);\nint a = 10;\nint b = 20;\nSignal r = (20 - 10) * x;\nSignal q = a + ((b - a) * x) / 100;\nSignal p = (a * 2 - b) + x;\n')
     yield "iso-lamp-next-to-combinator", ('Signal s = ("signal-A", 6);\nSignal t = ("signal-B", 4);\nSignal u = ("signal-B", 9);\nSignal r1 = s * u;\n'
                                           'Entity l = place("small-lamp", 0, 0);\nl.enable = s + t;\n')
     # a signal literal whose VALUE is only known at run time carries that value (not 0)
@@ -421,6 +423,8 @@ def c15_scope(tier):
     P.append(("bundle-return-filter", 'func big(Signal a, Signal b, int k) {\n  Bundle t = { a, b };\n  return (t > k) : t;\n}\n' + X + "Bundle r = big(x, y, 3);\n"))
     P.append(("bundle-return-used", FB + X + "Bundle r = pack(x, y);\nBundle q = r * 2;\nSignal s = any(r) > 5;\n"))
     P.append(("bundle-any-in-func", 'func hot(Signal a, Signal b) {\n  Bundle t = { a, b };\n  return any(t) > 5;\n}\n' + X + "Signal r = hot(x, y);\n"))
+    P.append(("int-parameter-constant-expression", 'func pick(Signal c, int v) {\n  return (c > 3) : v;\n}\nfunc sc(Signal t, int lo, int hi) {\n  return lo + ((hi - lo) * t) / 100;\n}\n'
+              + X + "Signal q = pick(y, 0 - 7) + 0;\nSignal l = sc(x, 10, 5 * 4) * 1;\n"))
     P.append(("bundle-any-in-func-computed-arg", 'func hot(Signal a, Signal b) {\n  Bundle t = { a, b };\n  return any(t) > 5;\n}\n' + X + "Signal q = hot(y, (x + 1) | \"signal-C\");\n"))
     return P
 
